@@ -27,12 +27,12 @@ type tierCfg struct {
 
 // budgets per property and tier (scenario counts sized from measured cost).
 var budgets = map[string]map[string]tierCfg{
-	"C15": {"quick": {6000, 8, 40, 15, 5 * time.Minute}, "thorough": {400000, 16, 900, 60, 40 * time.Minute}},
-	"C14": {"quick": {6000, 8, 40, 15, 5 * time.Minute}, "thorough": {400000, 16, 900, 60, 40 * time.Minute}},
-	"C12": {"quick": {6000, 8, 40, 15, 5 * time.Minute}, "thorough": {400000, 16, 900, 60, 40 * time.Minute}},
-	"C09": {"quick": {12000, 8, 40, 15, 5 * time.Minute}, "thorough": {800000, 16, 900, 60, 40 * time.Minute}},
-	"C04": {"quick": {12000, 8, 40, 15, 5 * time.Minute}, "thorough": {800000, 16, 900, 60, 40 * time.Minute}},
-	"C05": {"quick": {12000, 8, 40, 15, 5 * time.Minute}, "thorough": {800000, 16, 900, 60, 40 * time.Minute}},
+	"C15": {"quick": {40000, 16, 60, 15, 6 * time.Minute}, "thorough": {6000000, 16, 600, 60, 40 * time.Minute}},
+	"C14": {"quick": {50000, 16, 60, 15, 6 * time.Minute}, "thorough": {8000000, 16, 600, 60, 40 * time.Minute}},
+	"C12": {"quick": {40000, 16, 60, 15, 6 * time.Minute}, "thorough": {6000000, 16, 600, 60, 40 * time.Minute}},
+	"C09": {"quick": {100000, 16, 60, 15, 6 * time.Minute}, "thorough": {16000000, 16, 600, 60, 40 * time.Minute}},
+	"C04": {"quick": {100000, 16, 60, 15, 6 * time.Minute}, "thorough": {16000000, 16, 600, 60, 40 * time.Minute}},
+	"C05": {"quick": {100000, 16, 60, 15, 6 * time.Minute}, "thorough": {16000000, 16, 600, 60, 40 * time.Minute}},
 }
 
 type violationRec struct {
